@@ -73,7 +73,8 @@ func dial(ctx context.Context, network, addr string) (net.Conn, error) {
 	}
 	l := v.(*memListener)
 	a, b := net.Pipe()
-	cli := memAddr(fmt.Sprintf("client-%d.mem:1", memConnSeq.Add(1)))
+	// one standby host, a fresh port per connection (as with real TCP)
+	cli := memAddr(fmt.Sprintf("standby.mem:%d", 1024+memConnSeq.Add(1)%60000))
 	select {
 	case l.ch <- memConn{b, l.addr, cli}:
 		return memConn{a, cli, l.addr}, nil
